@@ -73,5 +73,5 @@ package lock
 //@ func (*lock).Unlock(l, key, lockID) (err)
 //@   property C14
 //@   modifies *
-//@   ensures[removes_given_id] err == nil ==> calls("queue.remove") == old(calls("queue.remove")) + 1 && calledwith("queue.remove", 1, lockID) && lastret("queue.remove")
-//@   ensures[not_found_is_error] calls("queue.remove") > old(calls("queue.remove")) && !lastret("queue.remove") ==> err != nil
+//@   ensures[removes_given_id] err == nil ==> calls("queue.remove") == old(calls("queue.remove")) + 1 && calledwith("queue.remove", 1, lockID) && lastretb("queue.remove")
+//@   ensures[not_found_is_error] calls("queue.remove") > old(calls("queue.remove")) && !lastretb("queue.remove") ==> err != nil
